@@ -118,7 +118,7 @@ class World:
 def signature_of(rng, c):
     s = ''
     if rng.random() < 0.4:
-        s += str(rng.choice([1, 2, 3, 7, 12]))
+        s += str(rng.choice([1, 2, 3, 7, 9, 10, 12, 20, 30, 100, 101, 110]))      # (since-versions with a 0 in them too)
     for a in c['args']:
         if rng.random() < 0.25:
             s += '?'
